@@ -160,7 +160,7 @@ package dispatch
 // success, and only through DeleteIfNotModified with the copies taken before the notification.
 //@ spec resolvedCopy(a *alert.Alert, now time.Time) bool = a.EndsAt != 0 && a.EndsAt <= now
 //@ func (*aggrGroup).flush
-//@   props C05 C06
+//@   props C05 C06 C13 C20
 //@   requires ag != nil && notify != nil && ag.alerts != nil && ag.alerts.alerts != nil && ag.logger != nil && ag.marker != nil && store.ErrNotFound != nil
 //@   requires forall f model.Fingerprint :: f in ag.alerts.alerts ==> ag.alerts.alerts[f] != nil
 //@   at call dynamic:param:notify assert [never-resolved-early] forall i int :: 0 <= i && i < len(arg0) ==> (arg0[i] != nil && (arg0[i].EndsAt == 0 || arg0[i].EndsAt <= ret("time.Now")))
